@@ -45,7 +45,8 @@ FAM = {
         "bare": "", "owned": "(owned)", "ref": "(ref)", "ref_mut": "(ref_mut)", "owned_ref": "(owned, ref)", "ref_refmut": "(ref, ref_mut)",
         "all3": "(owned, ref, ref_mut)", "all3_comma": "(owned, ref, ref_mut,)", "ty_a": "(i64)", "ty_b": "(i128)", "ty_ab": "(i64, i128)",
         "unknown_form": "(frob(i32))", "legacy_types": "(types(i64))", "mixed_forms": "(i64, ref(i32))",
-        "forms_nocomma": "(ref(i32) ref_mut)"}),
+        "forms_nocomma": "(ref(i32) ref_mut)", "groups_trailing": "(owned(i64,), ref(i32,))", "group_trailing_outer": "(ref(i32,),)",
+        "group_then_bare": "(owned(i64), owned, ref(i32))"}),
     "into_field": dict(derives=["Into"], item="struct S {{ a: i32, {A} b: u8 }}", name="into", atoms={"skip": "(skip)", "ignore": "(ignore)"}),
     "legacy_field": dict(derives=["Deref", "DerefMut"], item="struct S {{ {A} a: Vec<u8>, b: u8 }}", name="{n}", atoms={
         "sel": "", "ignore": "(ignore)", "forward": "(forward)", "unknown": "(frobnicate)", "eq_value": ' = "x"',
